@@ -154,3 +154,10 @@ def runtime_probe():
     if key not in _built:
         _built[key] = cargo_build("runtime_probe", release=True)
     return _built[key]
+
+
+def router_probe():
+    key = ("router",)
+    if key not in _built:
+        _built[key] = cargo_build("router_probe")
+    return _built[key]
